@@ -61,6 +61,15 @@ func c10Scenario(p c10Params) Scenario {
 		case "garbage", "undersize", "oversize", "unknowntag":
 			peer.Inject = map[int][]byte{p.At: c10BadFrame(p.Fault, p.Dotu)}
 			peer.InjectSameSeg = p.SameSeg
+		case "earlyreply":
+			// the peer answers a request it has not received yet (the tag is in use by a call
+			// that still waits for the blocked writer), then hangs up
+			peer.Inject = map[int][]byte{}
+			for tg := uint16(0); tg < 4; tg++ {
+				r := peer.replyFor(-1, &wire.Msg{Type: wire.Tstat, Tag: tg, Fid: 30})
+				peer.Inject[0] = append(peer.Inject[0], wire.Encode(r, p.Dotu)...)
+			}
+			peer.CloseAfterBatch = true
 		case "wrongtype":
 			// a well-formed reply of the wrong kind under the tag of an outstanding call
 			peer.Kinds[p.At] = "wrongtype"
@@ -149,6 +158,9 @@ func c10Scenario(p c10Params) Scenario {
 						return &Viol{Sig: "C10/wrong-result-after-failure", Msg: fmt.Sprintf("call %s fid %d: %s", r.spec.Kind, r.spec.Fid, msg), Detail: detail}
 					}
 				}
+				continue
+			case "earlyreply":
+				// the peer made its replies up: what a call returns says nothing; it has to return
 				continue
 			case "unmount", "writefail", "peerclose":
 				// the reply may or may not have been read before the client itself tore the
@@ -267,6 +279,9 @@ func c10Scenarios(tier string) []Scenario {
 			out = append(out, c10Scenario(c10Params{Calls: two, Fault: f, At: at, Stall: true, Dotu: (i+at)%2 == 0, Late: (i+at)%3 == 0, P: D + 1}))
 		}
 	}
+	// replies to requests not yet written, while the writer is blocked, then the peer hangs up
+	out = append(out, c10Scenario(c10Params{Calls: []callSpec{{"read", 10}, {"stat", 20}, {"stat", 30}}, Fault: "earlyreply", Stall: true, P: D + 1}),
+		c10Scenario(c10Params{Calls: []callSpec{{"stat", 30}, {"read", 10}, {"stat", 20}}, Fault: "earlyreply", Stall: true, Dotu: true, Late: true, P: D}))
 	for _, lateC := range []bool{false, true} {
 		ud := D + 1
 		if !lateC {
@@ -290,7 +305,7 @@ func c10Scenarios(tier string) []Scenario {
 func init() {
 	register(&Property{ID: "C10", Level: "model_checking",
 		Technique: "fault enumeration crossed with stateless model checking of the real client under the controlled scheduler; hangs decided at quiescence",
-		Rule:      "0-3 (thorough 4) outstanding calls (raw calls, and File.Readn spanning three replies) plus an optional caller entering Rpc during the failure; faults: server-to-client stream cut after every byte offset of the scripted reply stream, client writes failing at 10 offsets inside the first requests, garbage / undersize / oversize / unknown-tag frames and well-formed replies of the wrong kind placed before, between and after complete replies (own segment and same segment), Unmount from another goroutine, peer closing; the frame faults, Unmount and peer close also while the client's writer is blocked inside Write (peer stopped reading after the first request); every schedule with at most D deviations from the default scheduler (delay bounding; quick D=1-3 by fault kind, thorough D=2-4); afterwards one more call. distinct = distinct per-object operation orders",
+		Rule:      "0-3 (thorough 4) outstanding calls (raw calls, and File.Readn spanning three replies) plus an optional caller entering Rpc during the failure; faults: server-to-client stream cut after every byte offset of the scripted reply stream, client writes failing at 10 offsets inside the first requests, garbage / undersize / oversize / unknown-tag frames and well-formed replies of the wrong kind placed before, between and after complete replies (own segment and same segment), Unmount from another goroutine, peer closing; replies to requests not yet written; the frame faults, Unmount and peer close also while the client's writer is blocked inside Write (peer stopped reading after the first request); every schedule with at most D deviations from the default scheduler (delay bounding; quick D=1-3 by fault kind, thorough D=2-4); afterwards one more call. distinct = distinct per-object operation orders",
 		Assumptions: []string{"'within bounded time' is decided as: no reachable quiescent state in which a caller is blocked", "transport: a cut delivers exactly the bytes before the offset, then EOF"},
 		Scenarios:   c10Scenarios, QuickS: 180, ThoroughS: 1500})
 }
